@@ -188,6 +188,65 @@ def expectedSetOf : String → Option (T → List Loc)
   | "constructor_order_qa" => some expectedConstructorOrder
   | _ => none
 
+/-! ## C10 oracle: packing reports against Solidity's layout rule (independent of `slotsUsed`/`canPack`) -/
+
+def insertEverywhere (x : Nat) : List Nat → List (List Nat)
+  | [] => [[x]]
+  | y :: ys => (x :: y :: ys) :: (insertEverywhere x ys).map (y :: ·)
+
+def permsSmall : List Nat → List (List Nat)
+  | [] => [[]]
+  | x :: xs => (permsSmall xs).flatMap (insertEverywhere x)
+
+/-- `some true`: no reordering occupies fewer slots; `some false`: one does; `none`: too long to enumerate and
+not at the lower bound ⌈bits / 256⌉ -/
+def declaredOptimal (xs : List Nat) : Option Bool :=
+  let used := slotsOfLayout xs
+  if used == (xs.sum + 255) / 256 then some true
+  else if xs.length ≤ 7 then some ((permsSmall xs).all fun p => used ≤ slotsOfLayout p)
+  else none
+
+def bothSortsSave (xs : List Nat) : Bool :=
+  let used := slotsOfLayout xs
+  let asc := (xs.toArray.qsort (· < ·)).toList
+  slotsOfLayout asc < used && slotsOfLayout asc.reverse < used
+
+/-- the packable units of a file: (location reported for it, documented sizes of its members) -/
+def packUnits (structs : Bool) (root : T) : List (Loc × List Nat) :=
+  (T.allNodes root).filterMap fun n =>
+    if structs then
+      match n with
+      | .node .SourceUnitPart_StructDefinition [.node .S_StructDefinition [loc, _, fields]]
+      | .node .ContractPart_StructDefinition [.node .S_StructDefinition [loc, _, fields]] =>
+        (Loc.ofT loc).map fun l => (l, (vecItems fields).filterMap fun f =>
+          match f with
+          | .node .S_VariableDeclaration (_ :: ty :: _) => some (specTypeSize ty)
+          | _ => none)
+      | _ => none
+    else
+      match n with
+      | .node .SourceUnitPart_ContractDefinition [.node .S_ContractDefinition [loc, _, _, _, parts]] =>
+        (Loc.ofT loc).map fun l => (l, (vecItems parts).filterMap fun p =>
+          match p with
+          | .node .ContractPart_VariableDefinition [.node .S_VariableDefinition (_ :: ty :: _)] => some (specTypeSize ty)
+          | _ => none)
+      | _ => none
+
+def packOracleOn (structs : Bool) (root : T) (reported : List Loc) : Option String :=
+  let units := packUnits structs root
+  let bad := units.filterMap fun (l, sizes) =>
+    let rep := reported.any (fun r => r.start == l.start && r.stop == l.stop)
+    if rep && declaredOptimal sizes == some true then
+      some s!"reported at {l.start} although the declared order {sizes} is already optimal ({slotsOfLayout sizes} slots)"
+    else if !rep && bothSortsSave sizes then
+      some s!"not reported at {l.start} although sorting {sizes} by size saves a slot in either direction"
+    else none
+  let stray := reported.filter fun r => !(units.any fun (l, _) => r.start == l.start && r.stop == l.stop)
+  match bad, stray with
+  | w :: _, _ => some w
+  | [], r :: _ => some s!"reported location {r.start} is not a contract / struct"
+  | [], [] => none
+
 /-! directory requests -/
 
 partial def parseEntries (cs : List Char) (acc : List Entry) : List Entry × List Char :=
